@@ -2,7 +2,7 @@
 import numpy as np
 
 from .. import tlc, dsys
-from ..common import MachineryFailure, import_dreye, pmap
+from ..common import MachineryFailure, import_dreye, pmap, grouped
 
 RULE = ("one TLC state per (lattice system, variance model); per grid target the exact stage-1 optimum q* and the exact "
         "stage-2 optimum of sum(eps x^2) over {x in box: Mx = q*} (KKT active-set QP; TLC: feasible, no polytope vertex "
@@ -73,6 +73,31 @@ def replay_state(st):
                         bad.append(("C09.minimal-variance", w, v2, v, r))
                     if np.max(np.abs(pred - qstar)) > TOLX + 3 * lens:
                         bad.append(("C09.fit-quality", dict(kind="prediction", **w), qstar.tolist(), pred.tolist(), r))
+    # a tolerance that is not negligible: the minimal variance lies at the edge of the admissible set.  Necessary
+    # condition: shrinking the ordinary fit towards the lower bounds stays admissible for a while and has a smaller
+    # variance; the result must not be worse than the best such probe point.
+    BIG = 0.05
+    rows_big = [k for k, r in enumerate(recs) if r["zero"]][:6]
+    if rows_big:
+        try:
+            Xb, Bpb, _ = est.minimize_variance(B[rows_big].copy(), l2_eps=BIG, Epsilon=("heteroscedastic" if ek == "hetero" else E.copy()))
+            for j, k in enumerate(rows_big):
+                r = recs[k]
+                x1 = np.asarray(r["x1"], float) / r["x1den"] / D
+                best = None
+                for t in np.linspace(0, 1, 201):
+                    y = lb + (x1 - lb) * (1 - t)
+                    if np.linalg.norm(Kmat @ (A @ y + blv) - B[k]) <= BIG * 0.98:
+                        v = float(epsv @ y ** 2)
+                        best = v if best is None else min(best, v)
+                got = float(epsv @ np.asarray(Xb, float)[j] ** 2)
+                pred = Kmat @ (A @ np.asarray(Xb, float)[j] + blv)
+                if np.linalg.norm(pred - B[k]) > BIG + 1e-3:
+                    bad.append(("C09.fit-quality", dict(variant="large-tolerance", **where0), BIG, float(np.linalg.norm(pred - B[k])), r))
+                if best is not None and got > best * 1.02 + 1e-3:
+                    bad.append(("C09.minimal-variance", dict(variant="large-tolerance", **where0), best, got, r))
+        except Exception as ex:
+            bad.append(("C09.no-error", dict(exc=type(ex).__name__, variant="large-tolerance", **where0), None, repr(ex)[:200], None))
     # L1 request on in-gamut targets: the total intensity must be inside the window and the fit kept
     rows = [k for k, r in enumerate(recs) if r["zero"] and r["exact"] and r["nverts"] >= 2][:4]
     for k in rows:
@@ -118,6 +143,10 @@ def replay_state(st):
     return bad
 
 
+def _group(sts):
+    return [replay_state(st) for st in sts]
+
+
 def run(ctx):
     thorough = ctx.tier == "thorough"
     res = tlc.run("mc/MC_C09", cfg="mc/MC_C09_%s.cfg" % ("thorough" if thorough else "quick"), dump=True, timeout=3400)
@@ -126,7 +155,9 @@ def run(ctx):
     tlc.cleanup(res)
     if not sts:
         raise MachineryFailure("no states")
-    parts = pmap(replay_state, sts, chunksize=1)
+    groups = grouped(sts, lambda st: repr((st["sys"]["A"], st["sys"]["Kn"], st["sys"]["DK"])))
+    sts = [st for g in groups for st in g]
+    parts = [r for gp in pmap(_group, groups, chunksize=1) for r in gp]
     nex = 0
     for st, bad in zip(sts, parts):
         for clause, where, exp, obs, r in bad:
